@@ -8,7 +8,7 @@ import (
 
 func init() {
 	register("C18", []string{"./record"}, runC18)
-	propExplain["C18"] = "Decides structural clauses of C18 in record.Reader.nextChunk: a chunk is handed out (return nil) only after its CRC matched — and, for the recyclable / WAL-sync wire formats, after its log number matched — for the chunk at the reader's current position; every return of an invalid-chunk sentinel is preceded by recording the invalid offset for the current position (without it read-ahead can never confirm corruption); plus agreement of the chunk-encoding table with the header-format table. Does not decide byte-identical round trips for all sizes (value-level)."
+	propExplain["C18"] = "Decides structural clauses of C18 in record.Reader.nextChunk: a chunk is handed out (return nil) only after its CRC matched — and, for the recyclable / WAL-sync wire formats, after its log number matched — for the chunk at the reader's current position; every return of an invalid-chunk sentinel is preceded by recording the invalid offset for the current position (without it read-ahead can never confirm corruption); plus agreement of the chunk-encoding table with the header-format table. Shares the LogWriter rules of C20 (a failed block write is never overwritten by a later successful one). Does not decide byte-identical round trips for all sizes (value-level)."
 }
 
 func sentinelPred(names ...string) func(ssa.Value) bool {
@@ -92,7 +92,12 @@ func wireFormatIs(c *Ctx, constNames ...string) CondM {
 	}
 }
 
-func runC18(c *Ctx) { runC18Core(c) }
+func runC18(c *Ctx) {
+	runC18Core(c)
+	// the writer half of the round trip: a write error the LogWriter swallows leaves a hole that the
+	// reader stitches over (C20's sticky-error, ordering and lock rules are shared)
+	runC20Core(c)
+}
 
 func runC18Core(c *Ctx) {
 	fn := c.Fn("C18.O1", "rec.(*Reader).nextChunk")
